@@ -66,6 +66,8 @@ def e4_rehost():
     for src, dst in RT_FILES.items():
         rel = "rustemo/src/" + src
         out["rt/" + dst[:-3]] = (slicer.read(rel), rel)
+    lr = slicer.read(LRPARSER)
+    out["lr_loop_body"] = (slicer.block_after(lr, r"fn parse_with_context\s*\(", r"\bloop\b", "parse_with_context/loop"), LRPARSER)
     return out
 
 
